@@ -603,6 +603,39 @@ pub fn run_bulk_selected(ctx: &Ctx, prefix: &str, is_async: bool, which: &[&str]
             }
         }));
     }
+    // (2y) hostile PAYLOADS through the reader: messages whose framing is fine but whose argument
+    // length fields are extreme or inconsistent (pairs of 16-bit lengths, invalid type infos, filled
+    // invalid dialect) - the reader hands each piece to the parser and must survive whatever it does
+    if which.contains(&"len_sweep") {
+        let fams: Vec<crate::inputs::ByteFamily> = crate::inputs::decode_inputs(tier).into_iter().filter(|f| f.name == "dialect.length_pairs" || f.name == "dialect.invalid_filled" || f.name == "dialect.strings").collect();
+        for f in fams {
+            let n = f.size;
+            let name = f.name.clone();
+            let gen = f.gen;
+            ctx.run_family(Family::new(format!("{}.bulk.hostile_payloads.{}", prefix, name), n * 2, format!("every input of the decode family '{}' as a message between two ordinary ones x 2 schedules (no storage mode): results as the slice parser gives them, no panic", name), move |i, loc| {
+                let input = gen(i / 2);
+                if input.len() < 4 {
+                    return;
+                }
+                let pat = if i % 2 == 0 { Pattern { chunk: 0, disturb_every: 0 } } else { Pattern { chunk: 5, disturb_every: 3 } };
+                let mut s = vec![];
+                verbose_message(1, false, &mut s);
+                s.extend_from_slice(&input);
+                verbose_message(2, false, &mut s);
+                let s = Arc::new(s);
+                loc.evals += 1;
+                loc.traces += 1;
+                loc.state(i + 0x2e00_0000, true);
+                match run_reader(is_async, &s, false, pat, Cap::Minimal, None) {
+                    Ok(st) => {
+                        loc.transitions += st.deliveries + st.disturbances;
+                        loc.outcome_n("results as the slice parser gives them", st.messages + st.piece_errors);
+                    }
+                    Err(why) => viol(loc, &key_of(&why), format!("hostile payload {} of family {}; {}", hex_short(&input), name, pat.describe(is_async)), why),
+                }
+            }));
+        }
+    }
     // (3a) the default constructor on the largest messages: its own maximum-length constant, not the
     // one the minimal-capacity readers of the length sweep are built with
     if which.contains(&"default_capacity") {
